@@ -164,6 +164,7 @@ const (
 	ClkTicker        // around the ticker period
 	ClkLong          // 10s .. 10min
 	ClkMilli         // 1ms .. 1s
+	ClkPastExpiry    // into the round period (1 s .. 30 s units) that follows the one in which a drawn pending expiration lies - possibly far ahead, so that many periods pass without a sweep
 	NumClk
 )
 
@@ -835,6 +836,28 @@ func GenPlan(profName string, seed uint64) *Plan {
 		p.Epilogue = []Op{{K: OpWait}, {K: OpClose}}
 	case "ttl":
 		p.Epilogue = []Op{{K: OpWait}, {K: OpQuiesce}}
+		if c.BucketSecs > 0 && g.p(600) {
+			// steady clock first: steps of half a bucket width for twice the bucket
+			// width plus twice the ticker period and a margin, a write + Wait at
+			// each. What had expired before must be reclaimed by the end of it
+			// (the growing steps below would hide a bucket that is only ever
+			// picked up by a sweep spanning many periods).
+			tick := c.TickerSec
+			if tick == 0 {
+				tick = c.BucketSecs // the default ticker period is the bucket width
+			}
+			half := c.BucketSecs * 5e8
+			total := (2*c.BucketSecs + 2*tick + 2) * 1e9
+			if total/40 > half {
+				// keep the phase to about 40 steps; a step never exceeds one bucket width
+				half = min(total/40, c.BucketSecs*1e9)
+			}
+			p.Epilogue = append(p.Epilogue, Op{K: OpQuiesce, Arg: 3})
+			for t, i := int64(0), 0; t < total; t, i = t+half, i+1 {
+				p.Epilogue = append(p.Epilogue, Op{K: OpAdvance, TTL: half}, Op{K: OpSet, Key: nkeys, Cost: 1, Arg: int64(100 + i)}, Op{K: OpWait})
+			}
+			p.Epilogue = append(p.Epilogue, Op{K: OpQuiesce, Arg: 4})
+		}
 		// advance in growing steps to well beyond the last expiration; a write+Wait per step
 		steps := []int64{1e9, 2e9, 4e9, 5e9, 6e9, 1e10, 2e10, 6e10, 6e10, 12e10, 6e11, 36e11}
 		for i, d := range steps {
